@@ -73,7 +73,7 @@ def all_cases(ctx):
     base += F.renamed([c for c in F.f_unit(3) if c[0][0] == "pair"][:6] + F.f_shape()[:6], "miter3")
     out = []
     for cid, spec in base:
-        for variant in ("self", "copy", "restructured", "mutant", "renamed_input", "input_is_gate"):
+        for variant in ("self", "copy", "restructured", "mutant", "renamed_input", "input_is_gate", "tieoff_flipped"):
             out.append((cid + (variant,), (spec, variant)))
     return out
 
@@ -101,6 +101,11 @@ def run(ctx):
             if spec1 is None:
                 ctx.rejected("no gate to mutate")
                 continue
+        elif variant == "tieoff_flipped":
+            # both circuits get a tie-off that is an endpoint: 0 in c0, 1 in c1 (the copies then differ for EVERY valuation)
+            spec0 = dict(spec0, nodes=[list(n) for n in spec0["nodes"]] + [["zk_tie", "0", True]])
+            spec1 = dict(spec0, nodes=[list(n) for n in spec0["nodes"][:-1]] + [["zk_tie", "1", True]])
+            A0 = Net.from_spec(spec0)
         elif variant == "input_is_gate":
             # c1: one input of c0 is an internal gate (of fresh inputs) there, so it is NOT a shared startpoint
             ins = sorted(A0.inputs())
